@@ -148,7 +148,7 @@ def qStep (st : St) (retry : Int) (key : List UInt8) (tok : String) : St :=
   -- the specification state follows the restart flags consumed by checkSlowStart in the sub-clusters this
   -- call visited: the hash choice (if an in-cluster attempt is due) and the sub-cluster the implementation names
   let sc := st.sc
-  let firstN := (specFirst sc h).map (·.name)
+  let firstN := (specFirst sc h).map fun (s : SubSt) => s.name
   let visitFirst := decide (retry ≤ sc.retryMax + sc.crossRetry) && decide (retry ≤ sc.retryMax) && firstN != some blackholeName
   let sc := { sc with subs := sc.subs.map fun s =>
       if (visitFirst && firstN == some s.name) || (decide (retry ≤ sc.retryMax + sc.crossRetry) && s.name == iSub && firstN != some iSub)
@@ -165,7 +165,7 @@ def qStep (st : St) (retry : Int) (key : List UInt8) (tok : String) : St :=
 /-- `R<name>:<w>/...` : `bal.Reload(conf)`; token `Rok` / `Rerr` -/
 def rStep (st : St) (conf : GConf) (tok : String) : St :=
   let r := reload st.c conf
-  let posOld := (st.sc.subs.filter fun s => decide (0 < s.w)).map (·.name)
+  let posOld := (st.sc.subs.filter fun s => decide (0 < s.w)).map fun (s : SubSt) => s.name
   let sc' := specReload st.sc conf
   let pos := sc'.subs.filter fun s => decide (0 < s.w)
   let expect := if pos.isEmpty then "Rerr" else "Rok"
@@ -363,6 +363,27 @@ def run (op impl : String) : Ans :=
       | some c =>
         let st := runSteps subs { c := c, sc := c } (stepsS.splitOn ",") (impl.splitOn ",")
         if st.bad then { model := "bad-op", verdict := "skip" } else
+        -- many identical requests in one state whose hash choice has nothing eligible: the random cross retry must reach
+        -- every sub-cluster `randomSelectExclude` may return (failure probability of a correct draw < 1e-20)
+        let stepL := stepsS.splitOn ","
+        let toks := impl.splitOn ","
+        let st := match stepL with
+          | s0 :: _ =>
+            if stepL.all (· == s0) ∧ s0.startsWith "q0:" then
+              match bytesOfHex (s0.drop 3).toString with
+              | some key =>
+                match specFirst c (C02.sum64 key).toNat with
+                | some cur =>
+                  let oth := (c.subs.filter fun (s : SubSt) => s.name != cur.name && decide (0 ≤ s.w) && s.name != blackholeName).map fun (s : SubSt) => s.name
+                  let reached := toks.map fun (t : String) => let f := t.splitOn ":"; if f.getD 0 "" == "ok" then f.getD 1 "" else f.getD 2 ""
+                  if !hasElig c.algo cur ∧ cur.name != blackholeName ∧ 0 < c.crossRetry ∧ 0 ≤ c.retryMax ∧ oth.length ≥ 2 ∧ toks.length ≥ 40 * oth.length then
+                    let st := addTag st "cross-long-run"
+                    if oth.any (fun o => !reached.contains o) ∧ st.verdict.isNone then { st with verdict := some "cross-never-reaches-a-sub" } else st
+                  else st
+                | none => st
+              | none => st
+            else st
+          | [] => st
         { model := ",".intercalate st.out.reverse
           verdict := match st.verdict with
             | some cls => "FAIL:" ++ cls
